@@ -124,6 +124,7 @@ func runNode(events []string, props []string, args map[string]string) (res vx.Re
 			continue
 		}
 		a := s.apply(ev)
+		resend := s.resend
 		if n.batch > 0 {
 			n.batch--
 			if n.batch > 0 {
@@ -156,7 +157,11 @@ func runNode(events []string, props []string, args map[string]string) (res vx.Re
 			o.afterRestart(durable)
 			mon.afterRestart()
 			if a.isNetMsg || strings.HasPrefix(ev, "RP") {
-				a = s.apply(ev)
+				if resend != nil {
+					a.result = resend()
+				} else {
+					a = s.apply(ev)
+				}
 			}
 		}
 		s.drain(false)
